@@ -69,3 +69,14 @@ Print Assumptions C12_frechet.
 Print Assumptions C12_perfect.
 Print Assumptions C12_envelope.
 Print Assumptions C12_stacking.
+
+(* REFUTED for subinterval reconstitution (finding O37): with a fixed number of tiles the result for a sub-box need not lie inside the
+   result for the box.  Witness on the binary64 instance of the model (decided by computation, replayed on the implementation by
+   the check): f(x) = x * x, three tiles, sub-box [-1, 1] inside the box [-1, 2]. *)
+From Coq Require Import PrimFloat.
+Definition o37_e : expr := EMul (Var 0) (Var 0).
+Definition o37_run (box : list (float * float)) := sub_direct FN (fun x => x) (fun x _ => x) o37_e box 3.
+Theorem C12_sub_direct_refuted :
+  exists sub box r r', PrimFloat.leb (fst box) (fst sub) = true /\ PrimFloat.leb (snd sub) (snd box) = true /\
+    o37_run [sub] = Ok r /\ o37_run [box] = Ok r' /\ PrimFloat.ltb (fst r) (fst r') = true.
+Proof. exists (-1, 1)%float, (-1, 2)%float. eexists. eexists. repeat split; vm_compute; reflexivity. Qed.
